@@ -510,6 +510,8 @@ private:
         void stackDown(int count = 1)
         {
             stackLevel -= count;
+            if(stackLevel < -1)
+                stackLevel = -1; // No loop is open: a stray break or end must not sink the level any deeper
         }
 
         LoopStackEntry &getCurStack()
